@@ -10,6 +10,13 @@ int main(int argc, char** argv)
 {
     if (argc < 4) { std::cerr << "usage: utxochain replay <tests> <universe.json> [fork]\n"; return 2; }
     { std::ifstream f(argv[3]); std::stringstream ss; ss << f.rdbuf(); if (!g_uni.read(ss.str())) { std::cerr << "bad universe\n"; return 2; } }
+    // optional key=value arguments: par=<script check worker threads> fetch=<prevout fetch threads> cache=0|1
+    for (int i = 4; i < argc; ++i) {
+        const std::string a = argv[i];
+        if (a.rfind("par=", 0) == 0) g_simopts.worker_threads = std::stoi(a.substr(4));
+        if (a.rfind("fetch=", 0) == 0) g_simopts.prevout_threads = std::stoi(a.substr(6));
+        if (a.rfind("cache=", 0) == 0) g_simopts.validation_cache = a.substr(6) != "0";
+    }
     if (std::string(argv[1]) == "replay") {
         const bool use_fork = argc > 4 && std::string(argv[4]) == "fork";
         if (use_fork) g_pristine = MakeBaseSim();
